@@ -26,8 +26,14 @@ ASSUMPTIONS = [
     "(regenerated table); the theorem covers decimal text with optional sign, leading zeros, a .0 suffix and surrounding white space - "
     "digit-group underscores, texts longer than 4300 digits and float-like texts are covered by the tie only",
     "range widths are kept <= 5000 (the real code and the model both enumerate ranges)",
-    "connect() is followed up to the first network call: socket options (struct.pack range errors for out-of-range numbers), name "
-    "resolution and the connection itself are replaced by recorders",
+    "connect() is followed up to the first network call: name resolution, the socket and the connection itself are replaced by "
+    "recorders; every setsockopt block (ISO-TP CAN_ISOTP_OPTS / CAN_ISOTP_LL_OPTS / CAN_ISOTP_RECV_FC, can-raw CAN_RAW_FD_FRAMES) and "
+    "the bound CAN ids are recorded and compared byte for byte with the oracle's block; a struct.pack range error for an out-of-range "
+    "number is recorded as 'connect() stops here' and compared with the oracle's range check",
+    "the layout of struct can_isotp_options / can_isotp_ll_options / can_isotp_fc_options, the option numbers, flag bits and CAN_EFF_FLAG "
+    "are written down from linux/can/isotp.h, linux/can/raw.h, linux/can.h in Model/ParseTransport.lean (trusted base); __u32 in host "
+    "byte order is taken as little endian; TCP-based transports set no URI-dependent socket option (DoIP's SO_LINGER is constant); "
+    "can-raw filters (set_filter) are programmed by scanners after connect(), not from the URI, and are not followed",
     "only the transports of the built-in registry on this platform (linux: tcp, tcp-lines, doip, hsfz, isotp, can-raw, unix, unix-lines); "
     "plugin transports would break the `all_schemes_modelled` obligation rather than be modelled",
 ]
@@ -1225,17 +1231,22 @@ MANIFEST = {
                    "are the numbers / truth values written, in every spelling the field's reader accepts (auto_int: all bases; plain "
                    "int: decimal with sign, leading zeros, .0, white space; bool: every accepted word in any capitalisation), "
                    "unknown parameters ignored, and connect() goes on with the written host, the written or default port (13400 / "
-                   "6801) or the written unix path, after a scheme check that refuses every other scheme (HSFZ has none). Tied to "
+                   "6801) or the written unix path, after a scheme check that refuses every other scheme (HSFZ has none); the ISO-TP "
+                   "option block handed to setsockopt is struct can_isotp_options and decodes, as the kernel reads it, to the numbers "
+                   "the URI states under ext_address / tx_padding / rx_padding / rx_ext_address with exactly the flags of the settings "
+                   "present (isotp_opts_roundtrip, isotp_uri_programs_written_numbers). Tied to "
                    "the code by regenerated tables (transport registry with field kinds / required flags / connect facts by AST, "
                    "TransportScheme, the Unicode space / digit tables of the running interpreter, pydantic's trim set, quote's safe "
                    "set) and a differential run of the real auto_int, unravel, unravel_2d, Ranges/Ranges2D/AutoInt field types, "
                    "split_host_port/join_host_port, urllib quoting, TargetURI, every transport's pydantic config and connect() "
-                   "(network calls recorded), and the HSFZ / ISO-TP discovery scanners (fake buses): exhaustive over small "
+                   "(network calls recorded, every setsockopt block and the bound CAN ids compared with the oracle's over all combinations of "
+                   "absent / 0 / hex / decimal / octal / binary spellings of the optional ISO-TP settings), and the HSFZ / ISO-TP discovery scanners (fake buses): exhaustive over small "
                    "alphabets, all ports, every BMP code point in digit / space position, all byte strings <= 2 for the codecs; "
                    "Hypothesis text for parameter names and values; seeded over the grammars."),
     "level_note": ("Trusted: Lean kernel (axioms propext, Quot.sound, Classical.choice), urlsplit's handling of non-ASCII / malformed "
                    "network locations, ipaddress, pydantic's lax int beyond the tied texts, the harness; lone surrogates outside; "
-                   "IP-literal hosts compared as addresses; connect() observed up to the first network call."),
+                   "IP-literal hosts compared as addresses; connect() observed up to the first network call; kernel struct layouts / constants written down from the "
+                   "headers; little-endian host."),
     "technique": ("Lean 4 proof (structural / well-founded induction over the parsers, renderers and codecs; table facts by kernel "
                   "evaluation) + regenerated tables with agreement obligations + differential correspondence against the real parsers, "
                   "config models and connect() methods"),
